@@ -32,7 +32,6 @@ Definition rescan (l : list (sp * tok)) : option (list tok) :=
   scan (render (resolve (fun _ => true) 0 l)).
 Definition c08_rescan1 (e : expr) := rescan (sp1 e 0).
 Definition c08_rescan2 (e : expr) := rescan (sp2 MDisp e).
-Definition c08_unary_under_postfix := unary_under_postfix.
 Definition c08_right_nested_chain := right_nested_chain.
 
 Definition c08_reread1 (e : expr) := reread (sp1 e 0).
